@@ -2,6 +2,7 @@ package sx
 
 import (
 	"fmt"
+	"os"
 	"go/types"
 	"runtime/debug"
 	"sort"
@@ -31,6 +32,7 @@ type Engine struct {
 	CrossSolver   string
 	CrossCheck    bool
 	Tier          int
+	WallLimit     time.Duration
 	InitPrefixes  []string // packages (path prefixes) whose initialisers are executed
 	Coverage      map[string]int
 	covMu         sync.Mutex
@@ -45,7 +47,7 @@ type intrinsicFn func(fr *frame, args []value) value
 func NewEngine(prog *ssa.Program) *Engine {
 	e := &Engine{
 		Prog: prog, MaxSteps: 5_000_000, MaxConcretize: 70, MaxPaths: 200000, Workers: 16,
-		SolverTimeout: 20000, CrossTimeout: 5000, LIASolver: "z3", CrossSolver: "cvc5", CrossCheck: true, Coverage: map[string]int{},
+		SolverTimeout: 20000, CrossTimeout: 5000, LIASolver: "cvc5", CrossSolver: "z3", CrossCheck: true, Coverage: map[string]int{},
 	}
 	e.intrinsics = map[string]intrinsicFn{}
 	registerIntrinsics(e)
@@ -117,6 +119,7 @@ type PathResult struct {
 	CrossQueries int
 	CrossUnknown int
 	Mode        string // lia | bv
+	BVReason    string
 }
 
 type Obs struct {
@@ -190,6 +193,12 @@ func (m *Machine) needBV(ts ...*smt.Term) {
 	for _, t := range ts {
 		if !m.sess.CanAssert(t) {
 			ok = false
+			s := t.String()
+			if len(s) > 300 {
+				s = s[:300]
+			}
+			pos, _ := m.site()
+			m.res.BVReason = s + " @ " + pos
 			break
 		}
 	}
@@ -296,9 +305,7 @@ func (m *Machine) decide(conds []*smt.Term, why string) int {
 			continue
 		}
 		m.needBV(c)
-		m.sess.Push()
-		m.sess.Assert(c)
-		r := m.sess.Check()
+		r := m.sess.CheckAssuming(c)
 		switch r {
 		case smt.Sat:
 			mod, err := m.sess.Model(m.allVars())
@@ -309,8 +316,10 @@ func (m *Machine) decide(conds []*smt.Term, why string) int {
 			}
 		case smt.Unknown:
 			m.res.Unknown++
+		case smt.Unsat:
+			// the negation is implied by the path condition: remember it for syntactic pruning
+			m.pcSet[m.pool.Not(c)] = true
 		}
-		m.sess.Pop()
 	}
 	m.prefix = append(m.prefix, k0)
 	if conds[k0] != nil {
@@ -580,6 +589,7 @@ type HarnessResult struct {
 	CrossUnknown int
 	Pruned      int
 	ByMode      map[string]int
+	BVReasons   []string
 	Models      []PathModel // per completed path, for native validation
 }
 
@@ -647,7 +657,7 @@ func (e *Engine) RunHarness(fn *ssa.Function, keepModels int) *HarnessResult {
 					cond.Broadcast()
 					return
 				}
-				if started >= e.MaxPaths {
+				if started >= e.MaxPaths || (e.WallLimit > 0 && time.Since(t0) > e.WallLimit) {
 					hr.Truncated = true
 					work = nil
 					mu.Unlock()
@@ -673,6 +683,9 @@ func (e *Engine) RunHarness(fn *ssa.Function, keepModels int) *HarnessResult {
 				active--
 				work = append(work, pr.NewWork...)
 				hr.Paths++
+				if e.Verbose && hr.Paths%500 == 0 {
+					fmt.Fprintf(os.Stderr, "  .. %s paths=%d queue=%d %v t=%.0fs\n", fn.Name(), hr.Paths, len(work), hr.ByStatus, time.Since(t0).Seconds())
+				}
 				hr.ByStatus[pr.Status]++
 				hr.Obligations += pr.Obligations
 				hr.Discharged += pr.Discharged
@@ -683,6 +696,9 @@ func (e *Engine) RunHarness(fn *ssa.Function, keepModels int) *HarnessResult {
 				hr.CrossUnknown += pr.CrossUnknown
 				hr.Pruned += pr.Pruned
 				hr.ByMode[pr.Mode]++
+				if pr.BVReason != "" && len(hr.BVReasons) < 6 {
+					hr.BVReasons = append(hr.BVReasons, pr.BVReason)
+				}
 				hr.Steps += int64(pr.Steps)
 				hr.Decisions += int64(len(pr.Decisions))
 				if pr.PCSize > hr.MaxPC {
